@@ -3,6 +3,7 @@ import re
 
 from .. import ast as A
 from .. import tpl as T
+from .. import types as TY
 
 KEYWORDS = {
     "as", "break", "const", "continue", "crate", "dyn", "else", "enum", "extern", "false", "fn", "for", "if",
@@ -481,3 +482,137 @@ def rule_tpl_assoc(ctx):
             if why is None:
                 ctx.report(key, where, f"template in `{t.fn.qual}` calls `{site}(..)`: no audited resolution for `{z}` on `{'::'.join(segs)}` (not a known trait, inherent function, variant or free function)", {})
     ctx.floor("path calls in templates", n, 30)
+
+
+def _var_call_sites(ir):
+    """(kind, var node, method/fn name or None): `.#m(` | `#x::name(` | `<#x>::name(`"""
+    for seq, i, x, parents in T.ir_walk(ir):
+        if x["t"] != "var":
+            continue
+        # `.#m(`  /  `.#m::<..>(`
+        if i > 0 and seq[i - 1]["t"] == "p" and seq[i - 1]["c"] == "." and not (i > 1 and seq[i - 2]["t"] == "p" and seq[i - 2]["c"] == "."):
+            j = i + 1
+            if j < len(seq) and seq[j]["t"] == "p" and seq[j]["c"] == ":":
+                while j < len(seq) and not (seq[j]["t"] == "grp" and seq[j]["d"] == "("):
+                    j += 1
+            if j < len(seq) and seq[j]["t"] == "grp" and seq[j]["d"] == "(":
+                yield "method", x, None
+        # `#x::name(`: the variable opens the path (not preceded by `::` / `as`)
+        prev = seq[i - 1] if i > 0 else None
+        opens = not (prev is not None and ((prev["t"] == "p" and prev["c"] == ":") or (prev["t"] == "id" and prev["s"] == "as")))
+        if opens and i + 3 < len(seq) + 1:
+            j = i + 1
+            if j + 1 < len(seq) and seq[j]["t"] == "p" and seq[j]["c"] == ":" and seq[j + 1]["t"] == "p" and seq[j + 1]["c"] == ":":
+                k = j + 2
+                if k < len(seq) and seq[k]["t"] == "id":
+                    m = k + 1
+                    if m < len(seq) and seq[m]["t"] == "grp" and seq[m]["d"] == "(":
+                        # `<#x>::name(` is the same with `<` `>` around the variable
+                        yield "path", x, seq[k]["s"]
+        # `< #x > :: name (`
+        if prev is not None and prev["t"] == "p" and prev["c"] == "<" and i + 1 < len(seq) and seq[i + 1]["t"] == "p" and seq[i + 1]["c"] == ">":
+            j = i + 2
+            if j + 2 < len(seq) and seq[j]["t"] == "p" and seq[j]["c"] == ":" and seq[j + 1]["t"] == "p" and seq[j + 1]["c"] == ":" and seq[j + 2]["t"] == "id":
+                m = j + 3
+                if m < len(seq) and seq[m]["t"] == "grp" and seq[m]["d"] == "(":
+                    yield "path", x, seq[j + 2]["s"]
+
+
+def rule_tpl_ufcs(ctx):
+    """TPL-UFCS: generated code calls trait methods on user types only in fully qualified form. In every template of impl/src: (a) no method-call syntax with an interpolated method name (`recv.#method(..)`: resolution then depends on the traits in scope at the derive site and on inherent methods of the receiver); (b) a call `#x::name(..)` / `<#x>::name(..)` whose qualifier is an interpolation is allowed only when `#x` is a cast `<Ty as Trait>` (a token stream built from a template containing `as`), a trait path or an identifier of a trait - not a user *type* (rustc's type of the interpolated value is `syn::Type`, or an `Ident` that does not come from the trait name): `<#ty>::from(v)` picks an inherent `from` of the field type before `From::from`."""
+    n = 0
+    for t in T.all_templates(ctx.files):
+        rel = t.file.rel
+        if not rel.startswith("impl/src"):
+            continue
+        for kind_, var, name in _var_call_sites(t.ir):
+            n += 1
+            vn = var["s"]
+            where = f"{rel}:{t.file.line(var['span'][0])}"
+            if kind_ == "method":
+                construct = f"{rel}::{t.fn.qual}:.#{vn}()"
+                ctx.instance(construct)
+                ctx.report(construct, where, f"template in `{t.fn.qual}` calls `.#{vn}(..)` with method-call syntax: an inherent method of the receiver's type with that name is preferred over the trait's (a field type with its own `add` / `not` / `sum` makes the derived operator do something else than the operator on the field), and unless the enclosing impl is of that very trait the method is found only if the trait is in scope where the derive is used (`#[no_implicit_prelude]`, `no_std`); call it as `<path to trait>::#{vn}(recv, ..)`", {"template": t.text()[:300]})
+                continue
+            construct = f"{rel}::{t.fn.qual}:#{vn}::{name}()"
+            ty, b = TY.var_type_at(ctx, t.fn, vn.split(".")[0], var["span"][0])
+            cls = TY.classify(ty)
+            ok = None
+            why = ""
+            if cls == "Type":
+                ok, why = False, "the qualifier is a user type (`syn::Type`)"
+            elif cls == "Tokens":
+                # the token stream must be a cast: built by a template containing `as`
+                srcs = _token_sources(ctx, t.fn, vn, var["span"][0])
+                ok = bool(srcs) and all(" as " in s_ for s_ in srcs)
+                why = "the qualifier's tokens are not a `<Ty as Trait>` cast" if not ok else ""
+                if not srcs:
+                    ok, why = None, "provenance of the token stream not found"
+            elif cls in ("Ident", "Path"):
+                srcs = _ident_sources(t.fn, vn)
+                ok = bool(srcs) and all("trait" in s_.lower() for s_ in srcs)
+                why = "the identifier does not come from the trait name" if not ok else ""
+            ctx.instance(construct, sample={"call": f"#{vn}::{name}(..)", "qualifier type": ty, "class": cls})
+            if ok is not True:
+                ctx.report(construct, where, f"template in `{t.fn.qual}` calls `#{vn}::{name}(..)` and {why or 'the qualifier could not be classified'} (rustc type `{ty}`): an inherent associated function `{name}` of that type is chosen before the trait's; write `<#{vn} as path::to::Trait>::{name}(..)`", {"template": t.text()[:300]})
+    ctx.floor("calls qualified by an interpolation", n, 6)
+
+
+def _token_sources(ctx, fn, name, off, depth=0, seen=None):
+    """texts of the templates a TokenStream-typed local / struct field called `name` is built from, followed through
+    aliases, struct fields (`State` -> `SingleFieldData` -> `MultiFieldData`) and `.map(|..| quote!{..})`: every `let`
+    and every struct-literal field of that name in the template's file and in utils.rs contributes"""
+    seen = seen if seen is not None else set()
+    base = name.split(".")[-1]
+    if base in seen or depth > 4:
+        return []
+    seen.add(base)
+    out = []
+
+    def from_expr(e, g):
+        ms = list(A.macros(e, ("quote", "parse_quote")))
+        if ms:
+            return [T.ir_text(T.to_ir(mac["tokens"])) for mac, _p in ms]
+        res = []
+        names = set()
+        for x, _ in A.walk(e):
+            k = A.kind(x)
+            if k == "Expr::Field" and A.kind(x["member"]) == "Member::Named":
+                names.add(x["member"]["0"]["sym"])
+            elif k == "Expr::Path" and A.path_str(x) and "::" not in A.path_str(x):
+                names.add(A.path_str(x))
+        for nm in sorted(names):
+            if nm not in ("self", "data", "state"):
+                res += _token_sources(ctx, g, nm, 0, depth + 1, seen)
+        return res
+
+    for f_ in ctx.files.values():
+        if f_.rel != fn.file.rel and f_.rel != "impl/src/utils.rs":
+            continue
+        for g in A.functions(f_):
+            if g.block is None:
+                continue
+            for st, _ in A.find(g.block, "Stmt::Local"):
+                if base in A.pat_idents(st["pat"]) and st.get("init") and A.kind(st["pat"]) in ("Pat::Ident", "Pat::Type"):
+                    out += from_expr(st["init"]["expr"], g)
+            for x, _ in A.find(g.block, "Expr::Struct"):
+                for fv in x["fields"]:
+                    if A.kind(fv["member"]) == "Member::Named" and fv["member"]["0"]["sym"] == base:
+                        e = fv["expr"]
+                        if A.path_str(e) == base:
+                            continue  # shorthand: the local of that name, collected above
+                        out += from_expr(e, g)
+    return out
+
+
+def _ident_sources(fn, name):
+    """rendered initialisers of an Ident-typed local"""
+    out = []
+    base = name.split(".")[0]
+    for st, _ in A.find(fn.block, "Stmt::Local"):
+        if base in A.pat_idents(st["pat"]) and st.get("init"):
+            out.append(A.render(st["init"]["expr"]))
+    for p in fn.node["sig"]["inputs"]:
+        if A.kind(p) == "FnArg::Typed" and base in A.pat_idents(p["0"]["pat"]):
+            out.append(base)
+    return out
